@@ -1,6 +1,6 @@
 (* correspondence glue for C15: one constructor per codec entry point; the harness records the
    inputs (as model values) and what the Go code produced; case_ok recomputes with the model *)
-From V Require Export Base.Hex Store.Codec SQL.KeyEnc.
+From V Require Export Base.Hex Store.Codec Store.ProtoConv SQL.KeyEnc.
 
 Definition txmd_eqb (a b : txmd) : bool :=
   opt_eqb N.eqb (md_trunc a) (md_trunc b) && opt_eqb bytes_eqb (md_extra a) (md_extra b).
@@ -34,7 +34,36 @@ Definition cmp_eqb (a b : comparison) : bool :=
 Definition pair_eqb {A B} (ea : A -> A -> bool) (eb : B -> B -> bool) (x y : A * B) : bool :=
   ea (fst x) (fst y) && eb (snd x) (snd y).
 
+Definition p_txmd_eqb (a b : p_txmd) : bool :=
+  (pt_trunc a =? pt_trunc b) && bytes_eqb (pt_extra a) (pt_extra b).
+Definition p_kvmd_eqb (a b : p_kvmd) : bool :=
+  Bool.eqb (pk_deleted a) (pk_deleted b) && opt_eqb N.eqb (pk_exp a) (pk_exp b) &&
+  Bool.eqb (pk_nonidx a) (pk_nonidx b).
+(* messages are compared field by field, a nil sub-message only with a nil one *)
+Definition p_hdr_eqb (a b : p_hdr) : bool :=
+  (ph_id a =? ph_id b) && bytes_eqb (ph_prevalh a) (ph_prevalh b) && (ph_ts a =? ph_ts b) &&
+  (ph_version a =? ph_version b) && opt_eqb p_txmd_eqb (ph_md a) (ph_md b) &&
+  (ph_nentries a =? ph_nentries b) && bytes_eqb (ph_eh a) (ph_eh b) &&
+  (ph_bltxid a =? ph_bltxid b) && bytes_eqb (ph_blroot a) (ph_blroot b).
+(* store headers coming back from a message: a nil metadata pointer only equals a nil one *)
+Definition txhdr_eqb_strict (a b : txhdr) : bool :=
+  txhdr_eqb a b && opt_eqb txmd_eqb (h_md a) (h_md b).
+Definition p_entry_eqb (a b : p_entry) : bool :=
+  bytes_eqb (pe_key a) (pe_key b) && opt_eqb p_kvmd_eqb (pe_md a) (pe_md b) &&
+  bytes_eqb (pe_hvalue a) (pe_hvalue b) && (pe_vlen a =? pe_vlen b).
+Definition s_entry_eqb (a b : s_entry) : bool :=
+  bytes_eqb (se_key a) (se_key b) && opt_eqb kvmd_eqb (se_md a) (se_md b) &&
+  (se_vlen a =? se_vlen b) && bytes_eqb (se_hval a) (se_hval b).
+
 Inductive case :=
+(* protocol conversions (database_protoconv.go): store value, the message XToProto built from it,
+   and what XFromProto made of that message; or a hand-made message and its XFromProto *)
+| CPTxMd (m : txmd) (p : p_txmd) (back : txmd)
+| CPTxMdFrom (p : p_txmd) (back : txmd)
+| CPKvMd (m : kvmd) (p : p_kvmd) (back : kvmd)
+| CPHdr (h : txhdr) (p : p_hdr) (back : txhdr)
+| CPHdrFrom (p : p_hdr) (back : txhdr)
+| CPEntry (e : s_entry) (p : p_entry) (back : s_entry)
 (* EncodeRawValueAsKey(v, ty, maxLen) with sql.MaxKeyLen = mkl: (key, n) or error *)
 | CKey (mkl : N) (ty : sqltype) (maxLen : N) (v : sqlval) (out : res (bytes * N))
 (* DecodeValueFromKey(buf, ty, maxLen): (value, consumed) or error *)
@@ -58,6 +87,12 @@ Inductive case :=
 
 Definition case_ok (c : case) : bool :=
   match c with
+  | CPTxMd m p back => p_txmd_eqb (txmd_to_proto m) p && txmd_eqb (txmd_from_proto p) back
+  | CPTxMdFrom p back => txmd_eqb (txmd_from_proto p) back
+  | CPKvMd m p back => p_kvmd_eqb (kvmd_to_proto m) p && kvmd_eqb (kvmd_from_proto p) back
+  | CPHdr h p back => p_hdr_eqb (txhdr_to_proto h) p && txhdr_eqb_strict (txhdr_from_proto p) back
+  | CPHdrFrom p back => txhdr_eqb_strict (txhdr_from_proto p) back
+  | CPEntry e p back => p_entry_eqb (entry_to_proto e) p && s_entry_eqb (entry_from_proto p) back
   | CKey mkl ty ml v out => res_eqb (pair_eqb bytes_eqb N.eqb) (enc_key mkl ty ml v) out
   | CKeyDec ty ml buf out => res_eqb (pair_eqb sqlval_eqb N.eqb) (dec_key ty ml buf) out
   | CVal ty ml nullable v out => res_eqb bytes_eqb (enc_val ty ml nullable v) out
